@@ -679,6 +679,7 @@ package core
 //@ func (*Location).ExecAction
 //@   ensures[C04.action_thunk_runs_once] result1 == nil ==> dyncalls() == old(dyncalls()) + 1
 //@   ensures[C04.action_thunk_at_most_once] dyncalls() <= old(dyncalls()) + 1
+//@   also-modifies dyncalls
 
 //@ func (*FindRules).Do
 //@   assert[C04.child_carries_its_rule_id] at "append(w.Children, child)": rule.Id == id
